@@ -676,6 +676,9 @@ package bpmn
 //@             (f.retry.limit == -1 || f.retry.attempts <= f.retry.limit) &&
 //@             (old(f.retry) != nil ==> f.retry == old(f.retry))
 //@     iter ensures [only-a-retry-repeats-the-request-after-an-error] handler.Mode == RetryMode
+//@     iter ensures [the-retry-budget-is-touched-only-in-a-step-that-read-the-handlers-decision]
+//@             f.retry != old(f.retry) || (f.retry != nil && f.retry.attempts != old(f.retry.attempts)) ==>
+//@             count(Recv, ErrHandler) == old(count(Recv, ErrHandler)) + 1
 //@   loop 2 range a.sequenceFlows
 //@     invariant forall b int :: off(results) <= b && b < off(results) + len(results) ==> 0 <= at(results, b) && at(results, b) < i
 //@     invariant forall b int, c int :: off(results) <= b && b < c && c < off(results) + len(results) ==> at(results, b) < at(results, c)
@@ -1013,6 +1016,16 @@ package bpmn
 //@   loop 1 range ps.waitings
 //@     invariant forall p int :: old(evlen) <= p && p < evlen ==> isOpaque(ev(p))
 //@     invariant ps.done == old(ps.done) && ps.mch == old(ps.mch)
+
+// Sorting the processes of the definitions: every process is listed exactly once, as executable or as waiting (a
+// process listed as both would be instantiated a second time by a message flow that should wake its catch event).
+//@ func (*Engine).NewProcessSet
+//@   prop C18
+//@   loop 1 range *definitions.Processes()
+//@     invariant [every-process-is-listed-once-as-executable-or-as-waiting] len(executes) + len(waitings) == rk1
+//@     iter ensures [an-executable-process-is-not-listed-as-waiting]
+//@       (len(executes) == old(len(executes)) + 1 && len(waitings) == old(len(waitings))) ||
+//@       (len(executes) == old(len(executes)) && len(waitings) == old(len(waitings)) + 1)
 
 // Waking a listening catch event: the canceller returned is the literal below, which closes the listener's channel
 // and forgets it under the lock.
@@ -1384,10 +1397,20 @@ package bpmn
 //@   loop 1 for
 //@     cancels ctx
 //@     invariant evt.satisfier == old(evt.satisfier) && tesShape(evt.satisfier) && tesDistinct(evt.satisfier) && tesNoneFull(evt.satisfier) && tesCommonBit(evt.satisfier)
+// The cancel handshake of a sub-process (C10, the twin of the generic task's): an interrupting boundary event asks the
+// activity to stop; a turn of the loop that takes a cancel message and goes on is a refusal - the normal flow continues.
 //@ func (*subProcess).run
-//@   prop C07 C12
+//@   prop C07 C12 C10
 //@   loop 1 for
 //@     cancels ctx
+//@     iter ensures [interrupt-cancels-a-running-sub-process @C10]
+//@       !(isRecv(ev(old(evlen))) && evch(ev(old(evlen))) == sp.mch && is(evval(ev(old(evlen))), cancelMessage))
+
+//@ func (*subProcess).Cancel
+//@   prop C10
+//@   ensures result != nil && fresh(result)
+//@   ensures evlen == old(evlen) + 1 && isSend(ev(old(evlen))) && evch(ev(old(evlen))) == sp.mch && is(evval(ev(old(evlen))), cancelMessage) &&
+//@           evval(ev(old(evlen))).(cancelMessage).response == result
 
 // Starting the inner flow of a sub-process contributes only calls, the start events' goroutines and their start
 // messages to the activation's log.
@@ -1395,14 +1418,22 @@ package bpmn
 //@   startFrame() && noMonitorStarted()
 //@ func (*subProcess).startWith
 //@   prop C12
+//@   flag countcalls
 //@   ensures subStartFrame()
+// Every inner start event and every inner throw event is triggered, one startWith each (the inner completion monitor
+// waits for every inner start event: one that is not triggered keeps the parent's token inside for ever).
 //@ func (*subProcess).startAll
 //@   prop C12
 //@   ensures subStartFrame()
+//@   ensures [every-inner-start-event-and-throw-event-is-triggered] tag(result) == 0 ==>
+//@             ndirect(code("(*subProcess).startWith")) == old(ndirect(code("(*subProcess).startWith"))) +
+//@               len(*sp.element.StartEvents()) + len(*sp.element.IntermediateThrowEvents())
 //@   loop 1 range *sp.element.StartEvents()
 //@     invariant subStartFrame()
+//@     invariant ndirect(code("(*subProcess).startWith")) == old(ndirect(code("(*subProcess).startWith"))) + rk1
 //@   loop 2 range *sp.element.IntermediateThrowEvents()
 //@     invariant subStartFrame()
+//@     invariant ndirect(code("(*subProcess).startWith")) == old(ndirect(code("(*subProcess).startWith"))) + len(*sp.element.StartEvents()) + rk2
 
 // One activation of an embedded sub-process (the goroutine serving the parent's token): the inner flow is started;
 // inner traces are relayed to the enclosing scope — but never the inner cease-flow trace, which would make an
@@ -1414,6 +1445,10 @@ package bpmn
 //@   requires sp.wr != nil
 //@   ensures [at-most-one-answer] count(Send, flowAction) <= old(count(Send, flowAction)) + 1
 //@   ensures [the-inner-cease-flow-trace-stays-inside] count(Trace, CeaseFlowTrace) == old(count(Trace, CeaseFlowTrace))
+//@   ensures [the-answer-offers-the-outgoing-flows-with-their-conditions-none-pre-selected]
+//@             count(Send, flowAction) == old(count(Send, flowAction)) + 1 ==>
+//@             len(lastval(Send, flowAction).(flowAction).unconditionalFlows) == 0 && lastval(Send, flowAction).(flowAction).response == nil &&
+//@             lastval(Send, flowAction).(flowAction).actionTransformer == nil && lastval(Send, flowAction).(flowAction).terminate == nil
 //@   ensures [no-answer-only-after-a-failed-start-or-a-cancellation] count(Send, flowAction) == old(count(Send, flowAction)) ==>
 //@             unchangedKind(Recv) || countOn(Recv, ctxdone(ctx)) == old(countOn(Recv, ctxdone(ctx))) + 1
 //@   loop 1 for
